@@ -190,6 +190,7 @@ type Engine struct {
 	stubsHit  map[string]bool
 
 	clock      int64
+	blobs      []blobEntry
 	unsupSeen  map[string]bool
 	rtypes     typeutil.Map
 	inInitOf   *ssa.Package
